@@ -1,6 +1,7 @@
 import TmVerif.Proofs.GraphBasic
 import TmVerif.Proofs.GraphScc
 import TmVerif.Proofs.GraphPath
+import TmVerif.Proofs.GraphTarjan
 /-!
 C26 — Graph algorithms return correct components, closures and paths (property theorems only).
 
@@ -48,12 +49,43 @@ theorem C26_closure_graph (g : Graph) (hwf : Wf g) (a b : Nat) (ha : a < g.lengt
     (Matrix.ofGraph g).closure.hasEdge a b = true ↔ Relation.TransGen (Edge g) a b :=
   Matrix.closure_ofGraph g hwf a b ha hb
 
+/-- `Graph()` lists exactly the edges of the matrix (`m.E a b` = `a, b < n` and `HasEdge(a, b)`). -/
+theorem C26_matrix_graph (m : Matrix) (a b : Nat) : Edge m.graph a b ↔ m.E a b := by
+  unfold Edge succs Matrix.graph Matrix.E
+  by_cases ha : a < m.n <;> simp [ha]
+
 /-! ### strongly connected components: the validator is sound -/
 
 /-- If `checkScc g comps` accepts then `g` is well formed and `comps` are exactly the strongly
 connected components of `g`, each reported once, in reverse topological order. -/
 theorem C26_checkScc_sound (g : Graph) (comps : List (List Nat)) (h : checkScc g comps = true) :
     Wf g ∧ IsSccOrder g comps := checkScc_sound g comps h
+
+/-- … and complete: every correct answer is accepted (any valid order of the components), so the
+per-instance verdicts of the check do not depend on how the implementation happens to order them. -/
+theorem C26_checkScc_complete (g : Graph) (comps : List (List Nat)) (hwf : Wf g)
+    (h : IsSccOrder g comps) : checkScc g comps = true := checkScc_complete g comps hwf h
+
+/-! ### Tarjan: the mirror is correct on every graph -/
+
+/-- For every well-formed graph with at least two vertices the mirror of `Tarjan` reports exactly the
+strongly connected components, each once, in reverse topological order. -/
+theorem C26_tarjan_correct (g : Graph) (hwf : Wf g) (h2 : 2 ≤ g.length) : IsSccOrder g (tarjan g) :=
+  tarjan_correct hwf h2
+
+/-- The same statement through the validator (the form announced in DESIGN.md). -/
+theorem C26_tarjan_checkScc (g : Graph) (hwf : Wf g) (h2 : 2 ≤ g.length) :
+    checkScc g (tarjan g) = true :=
+  checkScc_complete g _ hwf (tarjan_correct hwf h2)
+
+/-- Why the property is worded for at least two vertices: below that `Tarjan` returns before any
+callback, so the single vertex of a one-vertex graph is never reported. -/
+theorem C26_tarjan_small (g : Graph) (h : g.length < 2) : tarjan g = [] := tarjan_small h
+
+example : tarjan [[]] = [] ∧ ¬ IsSccOrder [[]] (tarjan [[]]) := by
+  refine ⟨by decide, fun h => ?_⟩
+  have := (h.cover 0).2 (by decide)
+  simp [tarjan_small (g := [[]]) (by decide)] at this
 
 /-! ### LongestPath -/
 
@@ -111,6 +143,7 @@ example : longestPath [[1], [2, 3], [3], [1]] = none := by decide
 example : IsPath [[1], [2, 3], [3], []] [0, 1, 3] := by simp [IsPath, Edge, succs]
 example : Wf [[1], [2, 2], [0], [3]] := by decide
 example : transpose [[1], [2, 2], [0], [3]] = [[2], [0], [1, 1], [3]] := by decide
+example : tarjan [[1], [2, 2], [0, 3], [3]] = [[3], [0, 1, 2]] := by decide
 example : checkScc [[1], [2, 2], [0, 3], [3]] [[3], [0, 1, 2]] = true := by decide +kernel
 example : checkScc [[1], [2, 2], [0, 3], [3]] [[0, 1, 2], [3]] = false := by decide +kernel
 
